@@ -68,6 +68,23 @@ func (self *Analyzer) functionSignature(node pAst.FunctionDefinition) {
 		)
 	}
 
+	// check if the identifier conflicts with a value of the module's root scope (imports, builtins):
+	// such a value would take precedence over the function whenever the name is used
+	if prev, _, exists := self.currentModule.getVar(node.Ident.Ident()); exists {
+		self.error(
+			fmt.Sprintf("Duplicate definition of '%s': the name is already used by an imported or a builtin value", node.Ident.Ident()),
+			[]string{"Consider changing the name of this function"},
+			node.Ident.Span(),
+		)
+		if prev.Origin != BuiltinVariableOriginKind {
+			self.hint(
+				fmt.Sprintf("Name '%s' previously defined here", node.Ident.Ident()),
+				nil,
+				prev.Span,
+			)
+		}
+	}
+
 	self.currentModule.addFunc(newFunction(
 		node.Ident.Span(),
 		newNormalFunction(node.Ident),
